@@ -3,6 +3,7 @@
 #include "spec/vin.h"
 #include "spec/c_pdu.h"
 #include "src/coap_pdu.c"
+#include "src/coap_encode.c"
 #include "stubs/base.h"
 #include "stubs/mem_havoc.h"
 void harness(void) {
